@@ -36,8 +36,8 @@ def cases(tier, seed):
     for k in range(n):
         order = rng.choice([1, 1, 2])
         d = rng.randint(1, 3)
-        field = poly.random_field(rng, d=d, nblocks=order, degree=2, nterms=2, time_dep=rng.random() < 0.5)
         nu = rng.randint(max(order, 1), 5)
+        field, inits_, t0_ = poly.random_problem(rng, d=d, nblocks=order, num_coeffs=nu + 1, degree=2, nterms=2, time_dep=rng.random() < 0.5)
         est = rng.choice(["residual", "residual", "state"])
         out.append(
             {
@@ -47,8 +47,8 @@ def cases(tier, seed):
                 "per_unit": rng.random() < 0.4, "didx": rng.randint(0, min(nu, 2)) if est == "state" else 0,
                 "strategy": rng.choice(["filter", "fixedpoint"]),
                 "field": field.to_json(),
-                "inits": [[str(poly.small_rational(rng, allow_zero=False)) for _ in range(d)] for _ in range(order)],
-                "t0": str(poly.small_rational(rng, allow_zero=True)),
+                "inits": [[str(x) for x in blk] for blk in inits_],
+                "t0": str(t0_),
                 "tol": 10 ** rng.uniform(-7, -2), "rtol_factor": 10 ** rng.uniform(-2, 2),
                 "dt0": 10 ** rng.uniform(-2, 0.3), "base": 2.0 ** rng.randint(-3, 3), "kshift": rng.choice([-7, -2, 3, 9]),
                 "seedc": rng.randrange(10**9), "cost": 4.0,
